@@ -74,8 +74,8 @@ type udpServer struct {
 
 	mu      sync.Mutex
 	ids     map[int]uint16
-	ports   []uint16        // source ports in order of first appearance = lookups that reached upstream
-	queries []map[int]int   // per lookup: family -> number of queries seen
+	ports   []uint16      // source ports in order of first appearance = lookups that reached upstream
+	queries []map[int]int // per lookup: family -> number of queries seen
 	played  []bool
 	badQ    string
 	syncCh  chan struct{}
@@ -476,7 +476,7 @@ var recUDP = ev.New("C17", "udp-loopback",
 		"truncated answers (then the TCP side usually carries a large answer padded to 512..65535 bytes), foreign-ID/garbage/QR=0/RA=0/short/cut/empty datagrams from the server; optionally the server answers only a retransmitted query; then a second lookup of the "+
 		"same name (cache hit expected for TTL>=3600, fresh answers expected after a failure). Non-trivial: a spoofed datagram arrives before the lookup is complete AND (TCP fallback "+
 		"happened or an unusable server datagram was sent); distinct key = datagram class string + outcome").
-	Require("tc-udp-then-tcp-answer>1234B", "spoofed-before-complete", "tcp-fallback", "truncated-udp", "udp-complete", "second-lookup-cache-hit", "second-lookup-after-failure", "foreign-ip", "foreign-port")
+	Require("failure-is-ErrLookup", "tc-udp-then-tcp-answer>1234B", "spoofed-before-complete", "tcp-fallback", "truncated-udp", "udp-complete", "second-lookup-cache-hit", "second-lookup-after-failure", "foreign-ip", "foreign-port")
 
 func runUDPPlan(t *testing.T, p *udpPlan) (viol string, labels map[string]bool, key string) {
 	labels = map[string]bool{}
@@ -645,6 +645,10 @@ func runUDPPlan(t *testing.T, p *udpPlan) (viol string, labels map[string]bool, 
 					keyb.WriteString("=> ok-via-udp ")
 				}
 			case x.entry == nil && out.isFailure():
+				if !out.isSentinel() {
+					return sigNotSentinel + " " + ctxs(), labels, ""
+				}
+				labels["failure-is-ErrLookup"] = true
 				matched = true
 				prev, prevFailed = nil, true
 				if len(obs) > 0 {
